@@ -203,6 +203,7 @@ func main() {
 	if *valIn != "" {
 		x.valMode = true
 		x.valIn = map[string]uint64{}
+		x.valInputs = map[[2]int64]bool{}
 		f, err := os.Open(*valIn)
 		if err != nil {
 			fatalf("%v", err)
@@ -213,6 +214,13 @@ func main() {
 			var h uint64
 			fmt.Sscanf(sc.Text(), "%s %d", &k, &h)
 			x.valIn[k] = h
+			var pi, ii, ci int64
+			fmt.Sscanf(k, "%d:%d:%d", &pi, &ii, &ci)
+			if ii%int64(x.nshard) == int64(x.shard) {
+				x.valInputs[[2]int64{pi, ii}] = true
+			} else {
+				delete(x.valIn, k) // another validation worker's unit
+			}
 		}
 		f.Close()
 	}
